@@ -12,6 +12,8 @@ import EEM.Model.Window
 import EEM.Model.BillingAgg
 import EEM.Model.PredictFrame
 import EEM.Model.Metrics
+import EEM.Model.SettingsTree
+import EEM.Gen.SettingsTables
 
 open EEM EEM.Proto EEM.Model
 
@@ -378,6 +380,28 @@ def opDGate (args : List String) : String :=
   | some [c, t] => if Model.Metrics.dailyDisqualified c t then "ok disqualified" else "ok acceptable"
   | _ => "bad-op"
 
+open EEM.Model.Settings in
+/-- `lock <daily|legacy|billing> <developer_mode 0/1> <hexpath=hexvalue>...`: path segments are
+separated by `.` after decoding and key-normalised by the model; value is the canonical text -/
+def opLock (args : List String) : String :=
+  match args with
+  | fam :: dm :: kvs =>
+    let tree : Option Tree := match fam with
+      | "daily" => some Gen.Settings.daily | "legacy" => some Gen.Settings.legacy
+      | "billing" => some Gen.Settings.billing | _ => none
+    let ovs : Option (List (List String × String)) := kvs.mapM fun kv =>
+      match kv.splitOn "=" with
+      | [k, v] => do
+        let k ← parseHexString k; let v ← parseHexString v
+        pure ((k.splitOn ".").map normKey, v)
+      | _ => none
+    match tree, parseBool01 dm, ovs with
+    | some t, some dm, some ovs =>
+      let cfg := ovs.foldl (fun c (p, v) => setPath c p v) (defaultCfg t)
+      if accepts t cfg dm then "ok accept" else "ok reject"
+    | _, _, _ => "bad-op"
+  | _ => "bad-op"
+
 def step (line : String) : String :=
   match words line with
   | "submodel" :: args => opPredictSubmodel args
@@ -403,6 +427,7 @@ def step (line : String) : String :=
   | "metrics" :: args => opMetrics args
   | "hgate" :: args => opHGate args
   | "dgate" :: args => opDGate args
+  | "lock" :: args => opLock args
   | _ => "bad-op"
 
 partial def loop (h : IO.FS.Stream) (out : IO.FS.Stream) : IO Unit := do
